@@ -537,6 +537,18 @@ def special_documents():
     doc("par-none-unit-y-nested", ' width="200" height="100"',
         '<svg x="5" y="6" width="90" height="50" viewBox="3 4 30 50" preserveAspectRatio="none">%s</svg>' % R)
     doc("viewbox-pure-offset", ' width="100" height="100" viewBox="7 9 100 100"', R)
+    # path coordinates that the writer prints in exponent form (tiny residues), exponents ending in 0 included
+    doc("path-exponent-coordinates", ' width="100" height="100"',
+        '<path id="e" d="M 2.5e-10,80 L 7.75e-20,1 l 2.5e-10,3.5e-10 L 3,1.5e-5 L 20.00000000025,8"/>')
+    # a nested svg that is not rendered (zero size, zero-size viewBox) followed by geometry in percentages: the dead
+    # viewport must not be the one those percentages refer to
+    PCT = '<rect id="p" x="10%" y="10%" width="50%" height="50%"/><circle id="q" cx="50%" cy="50%" r="5%"/>'
+    doc("dead-nested-viewport/zero-width", ' width="200" height="100"', '<svg width="0" height="50">%s</svg>%s' % (R, PCT))
+    doc("dead-nested-viewport/zero-viewbox", ' width="400" height="200"',
+        '<svg width="100" height="50" viewBox="0 0 0 10">%s</svg>%s' % (R, PCT))
+    doc("dead-nested-viewport/in-group", ' width="200" height="100" viewBox="0 0 100 50"',
+        '<g transform="translate(3,4)"><svg width="20" height="0">%s</svg>%s</g>' % (R, PCT))
+    doc("hidden-group-then-percent", ' width="200" height="100"', '<g display="none"><svg width="30" height="40">%s</svg></g>%s' % (R, PCT))
     # paints whose alpha is exactly 0 or exactly 1 in the colour syntax itself, and opacity attributes of 0 and 1
     doc("alpha-zero-paint", ' width="100" height="100"',
         '<rect id="a" width="10" height="5" fill="#11223300" stroke="rgba(4,5,6,0)" stroke-width="2"/>'
